@@ -31,7 +31,7 @@ func randPrintable(r *core.Rng) string {
 func checkC06(c *core.Ctx) {
 	c.SetRule("the C05 scenario family (every packet index x stop kinds x pacing x handler speed, cancels, handler/mapper failures, pre-connection failures, read error), one pass per cell, plus ERR packets with arbitrary code (1..65535) and printable/UTF-8 message with and without the #sqlstate marker at random stop points in both pacings; Error() is called immediately after Stream returns in half of the runs and after quiescence in the other half, always before any harness-side cancel; distinct by (history, spec); non-trivial iff the scripted stop was reached")
 	c.Assume("only the implications of the statement are demanded: parser-side failure => Stream != nil; Stream == nil and Error() == nil => cancellation or EOF; Stream == nil after ERR => Error() carries the message")
-	nh := c.N(3, 60)
+	nh := c.N(6, 60)
 	if c.Replay != "" {
 		var w struct {
 			Witness struct {
